@@ -210,6 +210,9 @@ def run_harness(crate_dir, target_dir, crate_name, harness, unwind_rules=(), fse
     if "property" in kinds:
         out["status"] = "fail"
         out["reason"] = "; ".join(sorted(set(f["desc"] for f in out["failed"] if f["kind"] == "property")))[:600]
+    elif not out["failed"]:
+        out["status"] = "inconclusive"
+        out["reason"] = "CBMC failed without a verdict (out of memory or killed)"
     else:
         out["status"] = "inconclusive"
         out["reason"] = "bound exceeded: " + "; ".join(sorted(set(f["desc"] for f in out["failed"])))[:400]
